@@ -170,6 +170,11 @@ impl Scenario for RollbackReuse {
         for _ in 0..a_reads_before {
             a_script.push(CtlStep::ReadOnOff { dev: 0 });
         }
+        // ... and, in half of the runs, rewrites the pending fabric's ACL over that CASE session
+        let a_writes_acl = tape::choose(2) == 1;
+        if a_writes_acl {
+            a_script.push(CtlStep::AclWrite { dev: 0, subject: 0x7777 });
+        }
         if how == 1 {
             a_script.push(CtlStep::Sleep {
                 ms: tape::choose(40) * 500,
@@ -269,6 +274,9 @@ impl Scenario for RollbackReuse {
         };
         if run.all_done && phase1_ok {
             out.count("c07_rollbacks", 1);
+            if a.iter().any(|(n, r, _)| *n == "acl_write" && *r == 0xffff) {
+                out.count("probe_acl_written_on_pending_fabric", 1);
+            }
             // A's probes after the rollback (the last three reads + the toggle) must all fail
             let late: Vec<&(u16, u64)> = a_reads.iter().skip(a_reads_before).collect();
             if late.iter().any(|(r, _)| *r == 0xffff) {
@@ -291,8 +299,8 @@ impl Scenario for RollbackReuse {
         }
         out.count("invariant_steps", track.steps);
         out.nontrivial = phase1_ok && run.all_done;
-        out.state_sigs.push((how as u64) << 8 | a_reads_before as u64);
-        out.sample = Some(json!({"expiry": if how == 0 { "timer" } else { "ArmFailSafe(0)" }, "a_reads_before": a_reads_before, "b_delay_ms": b_delay_ms,
+        out.state_sigs.push((how as u64) << 8 | (a_writes_acl as u64) << 4 | a_reads_before as u64);
+        out.sample = Some(json!({"expiry": if how == 0 { "timer" } else { "ArmFailSafe(0)" }, "a_reads_before": a_reads_before, "a_writes_acl": a_writes_acl, "b_delay_ms": b_delay_ms,
             "A": a.iter().map(|(n, r, t)| format!("{n}:{r:x}@{}ms", t / 1000)).collect::<Vec<_>>(),
             "B": b.iter().map(|(n, r, t)| format!("{n}:{r:x}@{}ms", t / 1000)).collect::<Vec<_>>()}));
         out
